@@ -265,7 +265,7 @@ class URL:
             target: The target of the HTTP request. Such as `"/items?search=red"`.
         """
         if url:
-            parsed = urllib.parse.urlparse(enforce_bytes(url, name="url"))
+            parsed = urllib.parse.urlsplit(enforce_bytes(url, name="url"))
             self.scheme = parsed.scheme
             self.host = parsed.hostname or b""
             self.port = parsed.port
